@@ -20,6 +20,9 @@ def variants(clocks):
             if (ls, lt) != (True, True) and ck not in ("inc", "frozen"):
                 continue
             vs.append({"host": "queued", "family": "spied", "drive": "queue", "live_spy": ls, "live_trace": lt, "clock": ck})
+    for ck in ("inc", "frozen", "step2"):
+        for ca in (0, 1):
+            vs.append({"host": "queued", "family": "spied", "drive": "queue", "live_spy": True, "live_trace": True, "clock": ck, "clear_after": ca})
     vs.append({"host": "queued", "family": "plain", "drive": "queue", "live_spy": True, "live_trace": True, "clock": "inc"})
     vs.append({"host": "queued_off", "family": "spied", "drive": "queue", "live_spy": True, "live_trace": True, "clock": "inc"})
     return vs
